@@ -306,6 +306,9 @@ def run(c, prog, ctx):
         if r != ("ret", str(exp)):
             bad.append((hex(v), r, exp))
     c.inst("R6.varint-size", "VarInt::size(v) = 1 / 3 / 5 / 9 with boundaries 0xFC, 0xFFFF, 0xFFFFFFFF (the encoder's, C01.R6)", not bad, "deviations %s" % bad[:4], VS.f.where(), VS.f.path)
+    # ... and the writer every encoder uses for lengths and counts switches form at the same boundaries: C01's emit_varint table
+    # (the size formulas use VarInt::size, the serialization uses emit_varint; they are two implementations of one table)
+    c.borrow(c01, "C01", prog, ctx, lambda rule, k: rule in ("R6.emit-varint-bounds", "R6.emit-varint-table"), "R6.varint-writer", 2)
     fb = prog.fn("block::Block::size")
     t = show(Prov(fb.body).local(0), -30)
     H = "(std::vec::Vec::len(encode::serialize(arg1.header)) AddWithOverflow encode::VarInt::size(encode::VarInt::VarInt{(std::vec::Vec::len(arg1.txdata) as u64)})).0"
